@@ -92,6 +92,25 @@ def field_order_cases(maxfields):
             yield ("flag-fields:" + ",".join(combo), "flags", w2, {"argv": argv})
 
 
+def list_item_order_cases(maxitems):
+    """a list-valued flag whose items are of every kind in every order: scalars become one
+    `--name value` pair each, NULL the bare flag, nested lists and tuples are left out — and
+    leaving one out must not affect the items after it. Also through a tuple in exec args."""
+    kinds = list(KIND_VALUES)
+    for n in range(1, maxitems + 1):
+        for combo in itertools.product(kinds, repeat=n):
+            w = T(("item", L(*[KIND_VALUES[k] for k in combo])), ("z", "last"))
+            argv = []
+            for k in combo:
+                if k in KIND_RENDER:
+                    argv += ["--item", KIND_RENDER[k]]
+                elif k == "null":
+                    argv += ["--item"]
+            argv += ["-z", "last"]
+            yield ("list-flag-items:" + ",".join(combo), "flags", w, {"argv": argv})
+            yield ("exec-list-flag-items:" + ",".join(combo), "exec", T(("command", "cmd"), ("args", L(w, "end"))), {"argv": ["cmd"] + argv + ["end"], "vars": {}})
+
+
 # ---------------------------------------------------------------------------------------------
 # shell evaluation
 
@@ -221,13 +240,14 @@ def run(ctx):
     maxlen = 5 if thorough else 4
     maxfields = 5 if thorough else 4
     strs = strings(maxlen)
-    cs = list(string_cases(strs)) + list(field_order_cases(maxfields))
+    cs = list(string_cases(strs)) + list(field_order_cases(maxfields)) + list(list_item_order_cases(4 if thorough else 3))
     ctx.bounds = {"string_length": maxlen, "alphabet": len(ALPHA), "strings": len(strs), "fields": maxfields, "field_kinds": len(KIND_VALUES), "shells": ["sh (dash)", "bash"]}
     ctx.rule = ("every string of length <= %d over 9 shell-significant characters plus %d further strings, in 7 placements (env value, flag value, "
                 "list-flag item, exec command, exec argument, exec flag-tuple argument, exec env value; %d strings per converter call except "
                 "exec command); every tuple of 1..%d fields with kinds drawn from {str, int, float, bool, NULL, list, tuple} in every order for "
-                "env and flags. Each converter output is evaluated by dash and bash. All cases distinct; non-trivial = both shells evaluated "
-                "the text." % (maxlen, len(UNICODE), PACK, maxfields))
+                "env and flags; every list-valued flag of 1..%d items of those kinds in every order (alone and as a tuple in exec args). "
+                "Each converter output is evaluated by dash and bash. All cases distinct; non-trivial = both shells evaluated "
+                "the text." % (maxlen, len(UNICODE), PACK, maxfields, 4 if thorough else 3))
     viol = []
     for part in core.pmap(work, cs, chunk=250):
         ctx.count(part["evals"], part["evals"])
@@ -256,7 +276,7 @@ def run(ctx):
 
 def replay(case):
     # rebuild the expectation from the generators
-    for p, conv, w, exp in itertools.chain(string_cases(strings(5)), field_order_cases(5)):
+    for p, conv, w, exp in itertools.chain(string_cases(strings(5)), field_order_cases(5), list_item_order_cases(4)):
         if p == case["placement"] and w == case["val"]:
             core._WORKER_SERVER = None
             part = work([(p, conv, w, exp)])
